@@ -271,8 +271,15 @@ class ProgramRunner:
     pre = pre_state_class(self.model, call)
     mon_before = len(self.monitor.anomalies) if self.monitor else 0
     self.controller.plan.clear()
-    if call['op'] == 'CreateStudy' and call.get('algo', S.STUB) == S.STUB and call.get('display'):
-      self.controller.stub_studies.add(S.study_name(call['owner'], call['display']))
+    if call['op'] == 'CreateStudy' and call.get('display'):
+      # the harness algorithm answers early-stopping requests for the studies it runs; a
+      # CreateStudy naming an existing study creates nothing and changes no routing
+      nm = S.study_name(call['owner'], call['display'])
+      if nm not in self.model.studies:
+        if call.get('algo', S.STUB) == S.STUB:
+          self.controller.stub_studies.add(nm)
+        else:
+          self.controller.stub_studies.discard(nm)
     entry = call.get('_stub_entry')
     calls_before = self.controller.suggest_calls
     if entry is not None:
